@@ -6,7 +6,7 @@
    [transpose_arr n f] is the exchanged-argument array on a square grid; [hom_rate_Q0] is the executable rational instance
    at zero delay that the check runs on the arrays handed to the Rust function. *)
 From Coq Require Import Reals QArith Lra List.
-From SpdVerif Require Import Model.FinSum Model.Hom Model.C09_Total Proofs.C09_total Proofs.FinSum_lemmas Proofs.Cx_lemmas Proofs.C09_range Proofs.C09_dip
+From SpdVerif Require Import Model.FinSum Model.Hom Model.Hom2 Model.C10_Pyth Proofs.C10_pyth Model.C09_Total Proofs.C09_total Proofs.FinSum_lemmas Proofs.Cx_lemmas Proofs.C09_range Proofs.C09_dip
   Proofs.C09_struct Proofs.C09_exec Gen.HomSrc Proofs.C09_src.
 Local Open Scope R_scope.
 
@@ -132,6 +132,15 @@ Theorem C09_series_total_is_model : forall g f gs taus,
   hom_rate_series_total g f gs taus = SeriesOk (map HomVal (hom_rate_series g (arr (0, 0) f) (arr (0, 0) gs) taus)).
 Proof. exact series_total_is_model. Qed.
 
+(* the non-zero-delay twin: arithmetic axes (signal x0 + s h, idler x0 + k h + r i h), delay m0 atan(4/3) / h *)
+Theorem C09_pyth_twin : forall (n : nat) (x0 h : R) (k r m0 : Z),
+  (1 < n)%nat -> h <> 0 ->
+  forall f gs : list (cx Q),
+  jsi_norm ROps (n * n) (RC f) <> 0 ->
+  Q2R (hom_rate_Qpyth n f gs m0 k r) =
+  hom_rate (axes_grid (pyth_ls n x0 h) (pyth_li n x0 h k r) n) (RC f) (RC gs) (pyth_delay m0 h) None.
+Proof. exact hom_rate_Qpyth_correct. Qed.
+
 (* ---- non-vacuity *)
 Example C09_nonvacuous_grid : square_sym 3 (sym_grid 3 1 2).
 Proof. repeat split. Qed.
@@ -163,5 +172,6 @@ Print Assumptions C09_total_is_model.
 Print Assumptions C09_total_zero_norm.
 Print Assumptions C09_series_total_cases.
 Print Assumptions C09_series_total_is_model.
+Print Assumptions C09_pyth_twin.
 Print Assumptions C09_exec_twin.
 Print Assumptions C09_exec_twin_normed.
